@@ -1616,14 +1616,24 @@ fn _unused(_: IoKind) {}
 /// binary lattice up to 70000 (two kinds, two framings), submitted through the client API in
 /// batches and judged by the same oracle as the generated cases.
 pub fn c03_count_sweep(ctx: &crate::runner::Ctx) -> crate::runner::SearchReport {
+    count_sweep(ctx, "c03_count_sweep", &[Fr::Mbap, Fr::Rtu])
+}
+
+/// The serial half of the sweep, for C06's "at most 256 bytes": every count through every
+/// submission path on RTU framing
+pub fn c06_count_sweep(ctx: &crate::runner::Ctx) -> crate::runner::SearchReport {
+    count_sweep(ctx, "c06_count_sweep_rtu", &[Fr::Rtu])
+}
+
+fn count_sweep(ctx: &crate::runner::Ctx, name: &'static str, framings: &[Fr]) -> crate::runner::SearchReport {
     use crate::runner::*;
     let mut rep = SearchReport::empty(
-        "c03_count_sweep",
+        name,
         "enumeration: every read count 0..=65535 x {read coils, discrete inputs, holding, input registers} x {MBAP, RTU} with start 0 and (thorough) start 65536-count; every write-multiple count 0..=2100 and the lattice {2^k-1, 2^k, 2^k+1} up to 70000 x {coils, registers} x {MBAP, RTU}; all three submission paths (Channel future, CallbackSession, FfiChannel) for the writes and for read counts near the limits and powers of two, in rotation elsewhere; batches of 256 requests per client session, same oracle as c03_requests. Non-trivial = request with count within 2 of its limit or of a power of two.",
     );
     let mut batches: Vec<C03Case> = Vec::new();
     let thorough = ctx.tier == Tier::Thorough;
-    for fr in [Fr::Mbap, Fr::Rtu] {
+    for fr in framings.iter().copied() {
         for kind in [Kind::ReadCoils, Kind::ReadDiscrete, Kind::ReadHolding, Kind::ReadInput] {
             let mut cur = Vec::new();
             for count in 0..=65535u32 {
